@@ -10,7 +10,10 @@
    monad is covered at once. *)
 Require Import Scale.Bytes.
 
-Inductive hook := HDescend | HAscend | HAlloc (n : N).
+(* HAlloc n: on_before_alloc_mem(n) - what the decoder announces to the input;
+   HReal n: a heap reservation the decoder (or the container it fills) makes - not an
+   Input call, invisible to every wrapper, used only by the C09 accounting *)
+Inductive hook := HDescend | HAscend | HAlloc (n : N) | HReal (n : N).
 Inductive event := ERead (n : N) | EHook (h : hook).
 
 Inductive prog (A : Type) : Type :=
